@@ -163,6 +163,7 @@ pub fn eval_expr_sem(e: &Expr, r: &Row, sem: &Sem) -> Option<bool> {
         });
     }
     match e {
+        Expr::CmpL(..) => eval_expr_sem(&e.mirrored().expect("mirrored"), r, sem),
         Expr::Cmp(v, op, t) => {
             let l = r.get(v)?;
             let rv: &String = match t {
